@@ -194,11 +194,12 @@ Lemma in_managed_for_plan w roots flt tp :
   passes flt (fst tp) = true /\
   ((exists r, In r roots /\ In tp (root_managed (files w) r)) \/
    (load_managed (files w) roots = [] /\
-    exists sn, latest_dr (snaps w) = Some sn /\ In tp (snap_managed sn))).
+    exists sn, latest_dr (snaps w) = Some sn /\ In tp (snap_managed sn) /\ under_roots roots tp = true)).
 Proof.
   unfold managed_for_plan. destruct (load_managed (files w) roots) as [|x m] eqn:E.
   - destruct (latest_dr (snaps w)) as [sn|] eqn:E2; [|intros []].
-    intros H. apply in_filter_managed in H as [H1 H2]. split; [exact H2|]. right. split; [reflexivity|].
+    intros H. apply in_filter_managed in H as [H1 H2]. apply filter_In in H1 as [H1 H3].
+    split; [exact H2|]. right. split; [reflexivity|].
     exists sn. auto.
   - intros H. apply in_filter_managed in H as [H1 H2]. split; [exact H2|]. left.
     rewrite <- E in H1. unfold load_managed in H1. apply in_flat_map in H1. exact H1.
@@ -581,3 +582,45 @@ Qed.
 Lemma managed_for_plan_pass w roots flt tp :
   In tp (managed_for_plan w roots flt) -> passes flt (fst tp) = true.
 Proof. intros H. apply in_managed_for_plan in H as [H _]. exact H. Qed.
+
+(* ---------- every change of a plan lies under a root of its target (C03, deploy side) ---------- *)
+Lemma under_roots_spec roots tp :
+  under_roots roots tp = true <->
+  exists r, In r roots /\ rtarget r = fst tp /\ is_prefix (rpath r) (snd tp) = true.
+Proof.
+  unfold under_roots. rewrite existsb_exists. split; intros [r [Hr H]]; exists r.
+  - apply andb_true_iff in H as [Ht Hp]. apply str_eqb_eq in Ht. auto.
+  - destruct H as [Ht Hp]. split; [exact Hr|]. apply andb_true_iff. split; [apply str_eqb_eq; exact Ht|exact Hp].
+Qed.
+
+Lemma managed_under_roots w roots flt tp :
+  In tp (managed_for_plan w roots flt) -> under_roots roots tp = true.
+Proof.
+  intros H. apply in_managed_for_plan in H as [_ [[r [Hr Hin]]|[_ [sn [_ [_ Hu]]]]]]; [|exact Hu].
+  apply in_root_managed in Hin as [es [e (_ & _ & _ & ->)]].
+  apply under_roots_spec. exists r. repeat split; auto. apply is_prefix_app.
+Qed.
+
+Lemma plan_under_roots w roots flt D c :
+  (forall d, In d D -> under_roots roots (dkey d) = true) ->
+  In c (plan (files w) D (managed_for_plan w roots flt)) ->
+  under_roots roots (c_target c, c_path c) = true.
+Proof.
+  intros HD Hc. apply plan_origin in Hc as [[d (Hd & Ht & Hp & _)]|[HM _]].
+  - rewrite Ht, Hp. apply (HD d Hd).
+  - eapply managed_under_roots. exact HM.
+Qed.
+
+Lemma deploy_changes_under_roots st confirmed adopt flt w roots D pl out w' p :
+  (forall d, In d D -> under_roots roots (dkey d) = true) ->
+  deploy_cmd st confirmed adopt flt w roots D = (pl, (out, w')) ->
+  files w' p <> files w p ->
+  exists r, In r roots /\ is_prefix (rpath r) p = true.
+Proof.
+  intros HD H Hne. pose proof H as H0. unfold deploy_cmd in H. inversion H as [[Hpl Hd]]. clear H.
+  apply deploy_apply_in_cases in Hd as [[_ ->]|(-> & -> & _)]; [contradiction|].
+  rewrite Hpl in *. apply apply_plan_exact in Hne as [[c [Hc Hp]]|[r [Hr Hp]]].
+  - subst pl. apply (plan_under_roots _ _ _ _ _ HD) in Hc. apply under_roots_spec in Hc as [r (Hr & _ & Hpre)].
+    exists r. simpl in Hpre. rewrite Hp in Hpre. auto.
+  - exists r. split; [exact Hr|]. rewrite Hp. unfold mf_path. apply is_prefix_app.
+Qed.
